@@ -48,8 +48,9 @@ theorem tie_splitConds : splitConds =
 /-- Control skeleton of splitListRequest: where `fn` (the backend call + merge callback) is called,
 where errors are produced, which branches return, break or continue. In particular: every
 rejection returns before the goroutines are started; inside the loop the error test follows the
-call directly and returns; `delete` happens only for uuids still in todo; zero items breaks, no
-progress returns an error. -/
+call directly and returns; `delete` happens only for uuids still in todo and any other returned
+uuid produces an error and returns (fix d542fa4, `accepts`); zero items breaks, no progress returns
+an error. -/
 theorem tie_splitSkeleton : splitSkeleton =
     ["if opts.BypassFederation || opts.ForwardedFor != \"\" {", "call fn => _,err", "return", "}",
      "for {",
@@ -78,7 +79,7 @@ theorem tie_splitSkeleton : splitSkeleton =
      "if len(batch) > len(todo) {", "for {", "}", "}",
      "call fn => done,err",
      "if err != nil {", "call httpErrorf", "return", "}",
-     "for {", "if ok {", "call delete", "}", "}",
+     "for {", "if ok {", "call delete", "} else {", "call httpErrorf", "return", "}", "}",
      "if len(done) == 0 {", "break", "} else {", "if !progress {", "call httpErrorf", "return", "}", "}",
      "}", "}", "}",
      "for {", "if err != nil && firstErr == nil {", "call cancel", "}", "}",
@@ -98,14 +99,16 @@ theorem tie_splitReturns : splitReturns =
      "httpErrorf(http.StatusBadRequest, \"cannot execute federated list query unless count==\\\"none\\\"\")",
      "httpErrorf(http.StatusBadRequest, \"cannot execute federated list query with limit, offset, or order parameter\")",
      "httpErrorf(http.StatusBadRequest, \"cannot execute federated list query because number of UUIDs (%d) exceeds page size limit %d\", nUUIDs, max)",
-     "", "", "",
+     "", "", "", "",
      "firstErr"] := rfl
 
 /-- What each goroutine reports: 404 (`statusNotFound`) for a cluster without proxy, 502
-(`statusBadGateway`) for a backend error and for a no-progress answer, nil at the end. -/
+(`statusBadGateway`) for a backend error, for a returned item that is not (or no longer) wanted and
+for a no-progress answer, nil at the end. -/
 theorem tie_splitSends : splitSends =
     ["errs <- httpErrorf(http.StatusNotFound, \"cannot execute federated list query: no proxy available for cluster %q\", clusterID)",
      "errs <- httpErrorf(http.StatusBadGateway, \"%s\", err.Error())",
+     "errs <- httpErrorf(http.StatusBadGateway, \"cannot execute federated list query: cluster %q returned item %q which was not requested or was already returned\", clusterID, uuid)",
      "errs <- httpErrorf(http.StatusBadGateway, \"cannot make progress in federated list query: cluster %q returned %d items but none had the requested UUIDs\", clusterID, len(done))",
      "errs <- nil"] := rfl
 
@@ -154,6 +157,7 @@ theorem tie_splitStrings :
     splitStrings[7]? = some (String.ofList ArvVerif.C20.sNone) ∧
     splitStrings.drop 12 = [String.ofList ArvVerif.C20.sUuid, String.ofList ArvVerif.C20.sUuid,
       String.ofList ArvVerif.C20.sIn, "%s",
+      "cannot execute federated list query: cluster %q returned item %q which was not requested or was already returned",
       "cannot make progress in federated list query: cluster %q returned %d items but none had the requested UUIDs"] := by
   decide
 
